@@ -228,6 +228,48 @@ def file_order(P, chk):
     chk.require(ok, R_FILE, "add_transaction|postings folded in file order", b.loc(), detail, "for (i, posting) in txn.posts.iter().enumerate()")
 
 
+def every_transaction_booked(P, chk):
+    """every Txn entry the loader delivers is booked: on the Txn arm of ProcessAccumulator::process no path reaches a
+    normal return without add_transaction (an assertion in a skipped transaction is never evaluated, and later ones
+    are evaluated against a balance that misses its postings)"""
+    b = P.body("okane_core::report::book_keeping::ProcessAccumulator::process")
+    chk.analysed(b)
+    adds = [(bb, t) for bb, t in b.calls() if (callee_def(t) or "").endswith("book_keeping::add_transaction")]
+    ok = len(adds) == 1
+    detail = "expected one add_transaction call in ProcessAccumulator::process, found %d" % len(adds)
+    if ok:
+        abb = adds[0][0]
+        arm = None
+        for s_ in sorted(b.live_blocks()):
+            ds = mir.describe_switch(b, s_)
+            if ds and ds[0] == "variant":
+                for tb, labs in ds[2].items():
+                    if list(labs) == ["Txn"] and any(q.is_param(r, "entry") for r in ds[1]):
+                        arm = (s_, tb)
+        ok = arm is not None
+        detail = "no match arm for LedgerEntry::Txn"
+        if ok:
+            reach = b.reach_from(arm[1], without_blocks=(abb,))
+            leaks = [x for x in reach if b.term(x)["k"] == "return"]
+            # the match itself must not be bypassed either
+            bypass = [x for x in b.reach_from(0, without_blocks=(arm[0],)) if b.term(x)["k"] == "return"]
+            ok = not leaks and not bypass
+            detail = "a Txn entry can return from process() without add_transaction (early return / skip)" if leaks else \
+                "process() can return before looking at the entry kind"
+    chk.require(ok, R_FILE, "ProcessAccumulator::process|every transaction is booked, in delivery order", b.loc(adds[0][0]) if adds else b.loc(), detail,
+                "Txn(txn) => self.txns.push(add_transaction(..)?)")
+    # and process() (the driver) books every delivered entry: the loader callback calls accum.process unconditionally
+    drv = [x for x in P.closures_of("okane_core::report::book_keeping::process") if any((callee_def(t) or "").endswith("ProcessAccumulator::process") for bb, t in x.calls())]
+    okd = len(drv) == 1
+    if okd:
+        x = drv[0]
+        chk.analysed(x)
+        cb = [bb for bb, t in x.calls() if (callee_def(t) or "").endswith("ProcessAccumulator::process")][0]
+        okd = all(x.must_pass_block(r, cb) for r in x.return_blocks())
+    chk.require(okd, R_FILE, "process|the loader callback hands every entry to the accumulator", "", "an entry can be dropped before book-keeping",
+                "loader.load(|path, pctx, entry| accum.process(ctx, entry)..)")
+
+
 def run(P, chk, tier):
     chk.rule(R_ORD, "assertion evaluated after applying the posting, on the balance that application returned, against that posting's `= X`; exactness decides Ok / BalanceAssertionFailure")
     chk.rule(R_TAB, "Amount::assert_balance returns zero() only under the zero test of the right quantity on each arm")
@@ -238,6 +280,7 @@ def run(P, chk, tier):
     C04.zero_entries(P, chk)
     amount_set_partial(P, chk)
     file_order(P, chk)
+    every_transaction_booked(P, chk)
     # the balance an assertion is compared with also receives the inferred amounts: exactly the recorded ones
     from . import C03 as _c03
     chk.rule(_c03.R_DED, "an inferred posting adds to the running balance exactly the amount recorded on that posting (shared with C03)")
